@@ -64,7 +64,7 @@ REQUIRED_PROBES = {
     "C07": ["accepted/", "maskable-handler-left-through-RETN", "acceptance-word-straddles-ffff-0000", "run-driven/"],
     "C08": ["stopped-at-breakpoint", "stopped-at-HALT", "interrupt-accepted-during-run", "breakpoint-wins-over-HALT", "host-pokes-memory-between-calls", "raised/forced", "long-run-stop-after-thousands-of-steps"],
     "C09": ["interrupt@between-repetitions", "crash-restore@element-boundary", "on-library-DumbMemory", "cpu-object-used-before-on-another-memory", "no-io-device-attached"],
-    "C10": ["crash-restore", "context-switch-at-bus-access", "type-twin/", "device-swap-mode-1", "free-running-world-under-race-detector", "worlds-without-io-device", "host-dma-pokes"],
+    "C10": ["crash-restore", "context-switch-at-bus-access", "type-twin/", "device-swap-mode-1", "free-running-world-under-race-detector", "worlds-without-io-device", "host-dma-pokes", "twin-without-notification-handlers", "run-resumed-after-host-patched-the-halt"],
     "C12": ["unsupported-opcode-consumed", "malformed-request@", "run-returned-halted", "callback-copies-cpu", "write-watch-device-posts-NMI", "hostile-worlds-running-concurrently"],
     "C13": ["cancelled/", "watcher-held-in-Err-call-3", "run-calls-goroutine-accounted", "resumed-after-cancel", "runs-on-a-reused-cpu", "run-on-a-copy-taken-during-run"],
     "C18": ["breakpoint-after-call", "console-write-fault", "interrupt-inside-machine", "warning-path", "cancel-mid-run", "console-is-a-real-file", "second-program-step-driven", "machines-running-concurrently", "machine-with-default-console-and-logger", "host-continues-on-a-copy-of-the-cpu", "console-is-a-func-adapter"],
